@@ -11,7 +11,7 @@ import (
 
 func init() {
 	register("C03", Meta{
-		Explanation: "Structural necessary conditions of 'applied exactly once, in nonce order': (nonce-writer) LastObservedEventNonceKey is written only by the tally-apply function and InitGenesis; in the former the stored value is the event's nonce and the write is cut off from the entry by 'event nonce == last observed + 1'; (tally-order) every call of the apply function from end-block code is guarded by 'nonce == GetLastObservedEventNonce()+1'; (accepted-first) on the applying path Accepted=true is persisted and the observed nonce is bumped before the handler is invoked, and the apply call is guarded by '!record.Accepted'; (single-apply) the handler is invoked only from the process function, which is called only from the apply function, which is called only from the end-block tally, each from a single call site; the handler's self-calls pass a freshly built SendToHubEvent and no self-call is reachable from the SendToHubEvent case (bounded recursion); (contiguity) = C02.one-vote.",
+		Explanation: "Structural necessary conditions of 'applied exactly once, in nonce order': (nonce-writer) LastObservedEventNonceKey is written only by the tally-apply function and InitGenesis; in the former the stored value is the event's nonce and the write is cut off from the entry by 'event nonce == last observed + 1'; (tally-order) every call of the apply function from end-block code is guarded by 'nonce == GetLastObservedEventNonce()+1'; (accepted-first) on the applying path Accepted=true is persisted and the observed nonce is bumped before the handler is invoked, and the apply call is guarded by '!record.Accepted'; (single-apply) the handler is invoked only from the process function, which is called only from the apply function, which is called only from the end-block tally, each from a single call site; the handler's self-calls pass a value of the concrete type *SendToHubEvent and no self-call is reachable from the SendToHubEvent case (bounded recursion); (contiguity) = C02.one-vote.",
 		NotDecided:  []string{"several records of one block reaching quorum in adversarial orders beyond what the guards imply", "behaviour of conflicting claims over histories (only: at most one apply per nonce follows from the nonce guard)"},
 		Assumptions: commonAssumptions,
 	}, checkC03)
@@ -67,7 +67,7 @@ func checkC03(c *Ctx) {
 	ws := c.Writers(live, "Set", "LastObservedEventNonceKey")
 	var applyFns []*ssa.Function
 	for _, f := range sortedKeys(ws) {
-		if isRoot(f, roots.InitGen) {
+		if c.isGenesisImport(f) {
 			r.Ok("C03.nonce-writer", fname(f), p.Pos(f.Pos()), "role genesis import")
 			continue
 		}
@@ -211,7 +211,7 @@ func checkC03(c *Ctx) {
 				}
 				return false, false
 			}
-			r.Check(ana.Guarded(ps, notAcc), "C03.accepted-first", fname(af)+":refuse-accepted", c.pos(ps), "the apply path is guarded by !record.Accepted", "an already accepted record can be applied again: the !Accepted guard is missing")
+			r.Check(c.guardedUp(ps, notAcc), "C03.accepted-first", fname(af)+":refuse-accepted", c.pos(ps), "the apply path is guarded by !record.Accepted", "an already accepted record can be applied again: the !Accepted guard is missing")
 		}
 	}
 
@@ -291,10 +291,17 @@ func checkC03(c *Ctx) {
 						fresh = true
 					}
 				}
+				// what bounds the recursion is the dynamic type of the event passed on: a value whose static
+				// type is the concrete *SendToHubEvent selects the deposit case, wherever it was built
+				if mi, ok := a.(*ssa.MakeInterface); ok {
+					if n := ana.NamedOf(mi.X.Type()); n != nil && n.Obj().Name() == "SendToHubEvent" {
+						fresh = true
+					}
+				}
 			}
 			if !fresh {
 				okRec = false
-				why = "self-call at " + c.pos(sc) + " does not pass a freshly built SendToHubEvent"
+				why = "self-call at " + c.pos(sc) + " does not pass a value of the concrete type *SendToHubEvent"
 			}
 		}
 		// no self call reachable from the SendToHubEvent case
